@@ -10,12 +10,17 @@ def key_columns(rng, tier):
     cols = []
     n = 40 if tier == 'quick' else 1200
     for _ in range(n):
-        kind = rng.choice(['int', 'mixed', 'float', 'text'])
+        kind = rng.choice(['int', 'mixed', 'float', 'text', 'close'] if _ % 5 else ['close'])
         ln = rng.randint(1, 8)
         if kind == 'text':
             pool = ['apple', 'Banana', 'cherry', 'date', 'Fig', 'grape', 'kiwi', 'a', 'B', 'ab']
             keys = [rng.choice(pool) for _ in range(ln)]
             order = lambda ks: sorted(ks, key=lambda s: s.lower())
+        elif kind == 'close':
+            # keys that differ only beyond the 9th significant digit: equal keys are EQUAL numbers, not numbers that are close
+            base, step = rng.choice([(123456789.0, 1 / 64), (12345678.01, 0.01), (1.0, 2.0 ** -40), (-98765432.5, 1 / 128), (1e15, 1.0)])
+            keys = [base + step * rng.randint(0, 6) for _ in range(ln)]
+            order = sorted
         else:
             def num():
                 v = rng.randint(-5, 30)
@@ -59,6 +64,9 @@ def lookups_for(rng, kind, keys):
         out.update([k, float(k) if float(k) == int(float(k)) else k, int(min(keys)) - 1, int(max(keys)) + 1, max(keys) + 100,
                     k + 0.5, k - 0.5, rng.randint(-6, 31)])
         out = {int(v) if (isinstance(v, float) and v == int(v) and rng.random() < 0.5) else v for v in out}
+        if kind == 'close':
+            ds = sorted(set(abs(a - b) for a in nums for b in nums if a != b)) or [abs(k) * 2.0 ** -36 or 2.0 ** -36]
+            out.update([k, k + ds[0], k - ds[0], max(nums) + ds[0], min(nums) - ds[0], k + ds[0] / 2, rng.choice(nums)])
     return list(out)
 
 
